@@ -485,3 +485,208 @@ var _ = late(func() {
 	properties["C15"].Rules = append(properties["C15"].Rules,
 		&Rule{ID: "C15.iter-end-is-equality", Floor: 1, Clause: "same rule as C04.iter-end-is-equality", Run: ruleIterEndIsEquality})
 })
+
+// new-notifies-all (C05-r7m3): heap.New reports the final index of EVERY initial item through indexChanged before it returns
+// (PriorityQueue registers its keys with a placeholder index and learns the real one from this call). A shortcut return for
+// "trivially a heap" inputs skips the notification: a queue built from a single initial key keeps index -1 and Priority /
+// Update / Remove of that key index out of range.
+func ruleNewNotifiesAll(c *Ctx, r *R) {
+	fn := c.fn("internal/heap.New")
+	if fn == nil || len(fn.Params) < 3 {
+		r.undecided("heap.New|missing", token.NoPos, "anchor not found")
+		return
+	}
+	initial := fn.Params[len(fn.Params)-1]
+	// the notification loop: a call of notifyIndexChanged (or of the callback) with a loop index; its header is the block of
+	// that index
+	var header *ssa.BasicBlock
+	for _, di := range deepInstrs(fn, 1) {
+		call, ok := di.in.(*ssa.Call)
+		if !ok || len(di.calls) > 0 {
+			continue
+		}
+		cal := staticCallee(&call.Call)
+		isNotify := cal != nil && fname(cal) == "notifyIndexChanged"
+		if !isNotify {
+			if p, isP := resolveVal(call.Call.Value).(*ssa.Parameter); isP && p.Parent() == fn {
+				isNotify = true
+			}
+		}
+		if !isNotify || len(call.Call.Args) == 0 {
+			continue
+		}
+		// the innermost loop around the call: the closest dominator the call's block can get back to
+		for d := call.Block(); d != nil; d = d.Idom() {
+			if d != call.Block() && reaches(call.Block(), d) {
+				header = d
+				break
+			}
+			if d == call.Block() && len(d.Succs) == 2 && reaches(d, d) {
+				header = d
+				break
+			}
+		}
+	}
+	if header == nil {
+		r.violated("heap.New|notify-loop", fn.Pos(), "New has no loop that reports the index of every initial item")
+		return
+	}
+	n := 0
+	instrs(fn, func(b *ssa.BasicBlock, _ int, in ssa.Instruction) {
+		ret, ok := in.(*ssa.Return)
+		if !ok {
+			return
+		}
+		n++
+		good := header.Dominates(b)
+		if !good {
+			// nothing to report: the return is under len(initial) == 0
+			for _, g := range guardsOf(b) {
+				cf, ok := g.asCmp()
+				if !ok {
+					continue
+				}
+				lc, isCall := resolveVal(cf.x).(*ssa.Call)
+				if !isCall {
+					continue
+				}
+				if bi, ok := lc.Call.Value.(*ssa.Builtin); !ok || bi.Name() != "len" || resolveVal(lc.Call.Args[0]) != ssa.Value(initial) {
+					continue
+				}
+				if (cf.op == token.EQL && isConstInt(cf.y, 0)) || (cf.op == token.LSS && isConstInt(cf.y, 1)) || (cf.op == token.LEQ && isConstInt(cf.y, 0)) {
+					good = true
+				}
+			}
+		}
+		r.ok(good, "heap.New|notifies-before-return#"+itoa(n), retPos(ret), "New returns without having gone through the loop that reports every initial item's index (and the list is not known to be empty): the index map of a PriorityQueue built from it keeps its placeholder")
+	})
+}
+
+// close-waits-on-every-path (C09-r7m3): the Close of a goroutine-backed stream (mergeStream, batchStream, parallel.mapStream)
+// returns only after the goroutines that own the sources have finished - on EVERY path; a shortcut ("End was already reported,
+// nobody left to wait for") returns while deferred Closes of the inputs are still pending.
+func ruleCloseWaitsEveryPath(c *Ctx, r *R) {
+	for _, name := range []string{"stream.mergeStream.Close", "stream.batchStream.Close", "parallel.mapStream.Close"} {
+		fn := c.fn(name)
+		if fn == nil {
+			r.undecided(name+"|missing", token.NoPos, "anchor not found")
+			continue
+		}
+		pkg := rootFn(fn).Pkg
+		pf := &PF{N: 2, InScope: func(f *ssa.Function) bool { return rootFn(f).Pkg == pkg && f.Blocks != nil && f != fn }}
+		pf.Instr = func(f *ssa.Function, in ssa.Instruction, q int) (StateSet, bool) {
+			var cc *ssa.CallCommon
+			switch x := in.(type) {
+			case *ssa.Call:
+				cc = &x.Call
+			case deferredCall:
+				cc = &x.Defer.Call
+			}
+			if cc == nil {
+				return 0, false
+			}
+			if cal := cc.StaticCallee(); cal != nil && cal.Name() == "Wait" && cal.Pkg != nil && (cal.Pkg.Pkg.Path() == "sync" || strings.HasSuffix(cal.Pkg.Pkg.Path(), "errgroup")) {
+				return ss(1), true
+			}
+			return 0, false
+		}
+		n := 0
+		for _, e := range pf.Exits(fn, ss(0)) {
+			n++
+			r.ok(e.States == ss(1), name+"|waits#"+itoa(n), retPos(e.Ret), "a path through Close returns without waiting for the background goroutines: their deferred Close of the sources may still be pending (or not yet begun) when Close returns")
+		}
+		if n == 0 {
+			r.undecided(name+"|returns", fn.Pos(), "no return found")
+		}
+	}
+}
+
+// signal-channels-fixed (C10-r7m1): the terminal state of a pipe is held in two close-only signal channels (senderDone,
+// streamDone); the halves read them on every call. They are set once, by Pipe; a half that overwrites one (nil "to release
+// it") can no longer observe the terminal state - after reporting End once, Next blocks for ever.
+func ruleSignalChannelsFixed(c *Ctx, r *R) {
+	n := 0
+	for _, fn := range c.funcsOfPkg("stream") {
+		name := c.nameOf(fn)
+		instrs(fn, func(_ *ssa.BasicBlock, _ int, in ssa.Instruction) {
+			st, ok := in.(*ssa.Store)
+			if !ok {
+				return
+			}
+			fa, ok := st.Addr.(*ssa.FieldAddr)
+			if !ok || !chanElemIsEmptyStruct(derefType(fa.Type())) {
+				return
+			}
+			base := fa.X
+			for {
+				inner, ok := base.(*ssa.FieldAddr)
+				if !ok {
+					break
+				}
+				base = inner.X
+			}
+			t := typeShort(base.Type())
+			if t != "PipeSender" && t != "pipeStream" && !strings.HasPrefix(strings.ToLower(t), "pipe") {
+				return
+			}
+			n++
+			_, fresh := resolveVal(base).(*ssa.Alloc)
+			r.ok(fresh, name+"|signal-store:"+fieldName(fa.X.Type(), fa.Field)+"#"+itoa(n), st.Pos(), "a terminal-signal channel of the pipe is overwritten outside its construction: the half can no longer see that the other side (or the sender itself) has finished - the reported end / error is not sticky")
+		})
+	}
+	if n == 0 {
+		r.undecided("stream.Pipe|signal-channels", token.NoPos, "no store to a signal channel of the pipe found (not even in Pipe)")
+	}
+}
+
+// ctx-err-only-after-done (C10-r7m2): ctx.Err() is nil until the context's Done channel is closed. The pipe's operations may
+// return it only where that is known - inside a <-ctx.Done() arm, or under an explicit test that it is non-nil. Returned from a
+// wall-clock shortcut ("the deadline has passed") it can still be nil: Send then reports success for a value it never enqueued.
+func ruleCtxErrOnlyAfterDone(c *Ctx, r *R) {
+	n := 0
+	for _, name := range []string{"stream.PipeSender.Send", "stream.PipeSender.TrySend", "stream.pipeStream.Next"} {
+		fn := c.fn(name)
+		if fn == nil {
+			r.undecided(name+"|missing", token.NoPos, "anchor not found")
+			continue
+		}
+		for _, di := range deepInstrs(fn, 2) {
+			ret, ok := di.in.(*ssa.Return)
+			if !ok || len(ret.Results) == 0 {
+				continue
+			}
+			for _, vr := range virtualReturnsOf(ret, len(ret.Results)-1) {
+				ec, ok := vr.val.(*ssa.Call)
+				if !ok || !ec.Call.IsInvoke() || ec.Call.Method.Name() != "Err" || !isContextType(ec.Call.Value.Type()) {
+					continue
+				}
+				n++
+				good := isCtxErrAfterDone(ec)
+				if !good {
+					for _, g := range guardsOf(vr.blk) {
+						if cf, ok := g.asCmp(); ok && cf.op == token.NEQ && isNilConst(cf.y) && cf.x == ssa.Value(ec) {
+							good = true
+						}
+					}
+				}
+				r.ok(good, name+"|ctx-err-known-non-nil#"+itoa(n), retPos(ret), "ctx.Err() is returned outside a <-ctx.Done() arm and without a test that it is non-nil: it is nil until Done is closed (also when the deadline has just passed on the wall clock), so the operation reports success for something it did not do")
+			}
+		}
+	}
+	if n == 0 {
+		r.undecided("stream.Pipe|ctx-err-returns", token.NoPos, "no return of ctx.Err() found in the pipe's operations")
+	}
+}
+
+var _ = late(func() {
+	properties["C05"].Rules = append(properties["C05"].Rules,
+		&Rule{ID: "C05.new-notifies-all", Floor: 1, Clause: "every return of internal/heap.New is dominated by the loop that reports each initial item's index through indexChanged (or is under len(initial) == 0)", Run: ruleNewNotifiesAll})
+	properties["C07"].Rules = append(properties["C07"].Rules,
+		&Rule{ID: "C07.param-effects", Floor: 6, Clause: "same rule as C19.param-effects, for the xslices namesakes of the combinators (Chunk, Compact, CompactFunc, Filter, Join, Map, Reduce, Runs, Equal): they compute their result without writing through (or aliasing into) the argument slice",
+			Run: subRule(ruleParamEffects, "|xslices.Chunk|", "|xslices.Compact|", "|xslices.CompactFunc|", "|xslices.Filter|", "|xslices.Join|", "|xslices.Map|", "|xslices.Reduce|", "|xslices.Runs|", "|xslices.Equal|")})
+	properties["C09"].Rules = append(properties["C09"].Rules,
+		&Rule{ID: "C09.close-waits-on-every-path", Floor: 3, Clause: "every path through the Close of mergeStream, batchStream and parallel.mapStream passes the wait for the background goroutines (WaitGroup.Wait / errgroup Wait)", Run: ruleCloseWaitsEveryPath})
+	properties["C10"].Rules = append(properties["C10"].Rules,
+		&Rule{ID: "C10.signal-channels-fixed", Floor: 2, Clause: "the close-only signal channels of the pipe's halves (senderDone, streamDone) are stored only while the halves are constructed", Run: ruleSignalChannelsFixed},
+		&Rule{ID: "C10.ctx-err-only-after-done", Floor: 3, Clause: "Send, TrySend and pipeStream.Next return ctx.Err() only inside a <-ctx.Done() arm or under a test that it is non-nil", Run: ruleCtxErrOnlyAfterDone})
+})
